@@ -1091,6 +1091,11 @@ class FnTr:
                     return Val(f'({a.text} / {b.text})', 'N')
                 return Val(f'(GV.Sphere.pymod {a.text} {b.text})', 'N')      # Python's float `%`
             raise Unsupported(f'`{ast.unparse(e)[:60]}`: {a.typ} {type(e.op).__name__} {b.typ}')
+        if isinstance(e, ast.BinOp) and isinstance(e.op, ast.BitXor):
+            a, b = self.expr(e.left), self.expr(e.right)
+            if a.typ == b.typ == 'Bool':
+                return Val(f'(xor {a.text} {b.text})', 'Bool')           # `p ^ q` on bools
+            raise Unsupported(f'`{ast.unparse(e)[:60]}`: {a.typ} ^ {b.typ}')
         if isinstance(e, ast.BinOp) and isinstance(e.op, (ast.Add, ast.Sub, ast.Mult)):
             a, b = self.expr(e.left), self.expr(e.right)
             a, b = self.unify_num(a, b)
@@ -1395,6 +1400,31 @@ class FnTr:
             if xss.typ.startswith('List List '):
                 return Val(f'(({xss.text}).flatten)', xss.typ[5:])
             raise Unsupported(f'flattening of {xss.typ}')
+        if len(g) in (1, 2) and all(isinstance(c.target, ast.Name) and not c.ifs and not c.is_async for c in g):
+            # `[f(x) for x in xs]` -> `xs.map`; `[f(x, y) for x in xs for y in g(x)]` -> `xs.flatMap (fun x => (g x).map …)`
+            xs = self.expr(g[0].iter)
+            if not xs.typ.startswith('List '):
+                raise Unsupported(f'comprehension over {xs.typ}')
+            x = self.gensym(lname(g[0].target.id))
+            inner = self.sub()
+            inner.fresh = self.fresh
+            inner.env[g[0].target.id] = Val(x, xs.typ[5:], path=g[0].target.id)
+            if len(g) == 1:
+                el = inner.expr(e.elt)
+                out = Val(f'(({xs.text}).map (fun {x} => {el.text}))', 'List ' + el.typ)
+            else:
+                ys = inner.expr(g[1].iter)
+                if not ys.typ.startswith('List '):
+                    raise Unsupported(f'comprehension over {ys.typ}')
+                y = inner.gensym(lname(g[1].target.id))
+                inner.env[g[1].target.id] = Val(y, ys.typ[5:], path=g[1].target.id)
+                el = inner.expr(e.elt)
+                body = ys.text if el.text == y else f'(({ys.text}).map (fun {y} => {el.text}))'
+                out = Val(f'(({xs.text}).flatMap (fun {x} => {body}))', 'List ' + el.typ)
+            if inner.pending:
+                raise Unsupported(f'`{self.inst.qual}`: a call that may raise inside a comprehension')
+            self.fresh = inner.fresh
+            return out
         if len(e.generators) != 1 or not isinstance(e.generators[0].target, ast.Name) or len(e.generators[0].ifs) != 1 \
                 or not (isinstance(e.elt, ast.Name) and e.elt.id == e.generators[0].target.id):
             raise Unsupported(f'`{self.inst.qual}`: comprehension other than `[x for x in xs if c]`')
